@@ -398,8 +398,8 @@ func main() {
 // This is runtime observation (the clause "no data races" of the property), not a theorem.
 var raceFuncRe = regexp.MustCompile(`^\s+(github\.com/siglens/siglens/[^\s(]+(?:\([^)]*\))?[^\s(]*)\(`)
 
-func raceFrame(block []string) string {
-	for _, l := range block {
+func raceFrame(block []string) (string, string) {
+	for i, l := range block {
 		if m := raceFuncRe.FindStringSubmatch(l); m != nil {
 			f := strings.TrimPrefix(m[1], "github.com/siglens/siglens/")
 			// closures: keep the enclosing function
@@ -408,14 +408,42 @@ func raceFrame(block []string) string {
 					f = f[:i]
 				}
 			}
-			return f
+			file := ""
+			if i+1 < len(block) {
+				file = strings.TrimSpace(block[i+1])
+				if j := strings.Index(file, "pkg/"); j >= 0 {
+					file = file[j:]
+				}
+				if j := strings.Index(file, ":"); j >= 0 {
+					file = file[:j]
+				}
+			}
+			return f, file
 		}
 	}
-	return ""
+	return "", ""
 }
 
-func parseRaceLogs(glob string) (pairs map[string]string, harnessOnly int) {
-	pairs = map[string]string{}
+// the files that implement what the Handover model describes: the open segment and its flush / rotation, the unrotated
+// info, the rotated metadata list, the enumeration of both by a query.  A race whose WRITE is in one of these is judged;
+// races elsewhere are counted in the evidence only (the unchanged tree has an open-ended set of them, see known/C11.json).
+var handoverFiles = map[string]bool{
+	"pkg/segment/writer/segstore.go": true, "pkg/segment/writer/segwriter.go": true, "pkg/segment/writer/unrotatedquery.go": true,
+	"pkg/segment/writer/segmetarw.go": true, "pkg/segment/writer/packer.go": true, "pkg/segment/writer/suffix/suffix.go": true,
+	"pkg/segment/metadata/metadata.go": true, "pkg/segment/query/segquery.go": true, "pkg/segment/query/queryrefresh.go": true,
+	"pkg/segment/query/metadata/segmetadata.go": true,
+}
+
+// one entry per distinct (writer functions, other function) combination
+type raceRep struct {
+	Writers  []string // innermost siglens function of every WRITE access of the report ("(harness)" if none of siglens)
+	WFiles   []string // their source files
+	Other    string   // the reading side, if one access is a read
+	Text     string
+}
+
+func parseRaceLogs(glob string) (reps map[string]raceRep, harnessOnly int) {
+	reps = map[string]raceRep{}
 	files, _ := filepath.Glob(glob)
 	for _, fn := range files {
 		b, err := os.ReadFile(fn)
@@ -427,35 +455,45 @@ func parseRaceLogs(glob string) (pairs map[string]string, harnessOnly int) {
 				rep = rep[:i]
 			}
 			// sections are separated by blank lines: access 1, access 2 ("Previous ..."), then goroutine creation stacks
-			secs := strings.Split(rep, "\n\n")
-			var acc []string
-			for _, sec := range secs {
-				t := strings.TrimSpace(sec)
-				if strings.HasPrefix(t, "Read at") || strings.HasPrefix(t, "Write at") || strings.HasPrefix(t, "Previous") || strings.HasPrefix(t, "Atomic") {
-					acc = append(acc, raceFrame(strings.Split(sec, "\n")))
+			var r raceRep
+			n, siglens := 0, 0
+			for _, sec := range strings.Split(rep, "\n\n") {
+				t := strings.ToLower(strings.TrimSpace(sec))
+				isW := strings.HasPrefix(t, "write at") || strings.HasPrefix(t, "previous write at") || strings.HasPrefix(t, "atomic write at") || strings.HasPrefix(t, "previous atomic write at")
+				isR := strings.HasPrefix(t, "read at") || strings.HasPrefix(t, "previous read at") || strings.HasPrefix(t, "atomic read at") || strings.HasPrefix(t, "previous atomic read at")
+				if !isW && !isR {
+					continue
+				}
+				n++
+				f, file := raceFrame(strings.Split(sec, "\n"))
+				if f != "" {
+					siglens++
+				} else {
+					f = "(harness)"
+				}
+				if isW {
+					r.Writers = append(r.Writers, f)
+					r.WFiles = append(r.WFiles, file)
+				} else {
+					r.Other = f
 				}
 			}
-			if len(acc) < 2 || (acc[0] == "" && acc[1] == "") {
+			if n < 2 || siglens == 0 {
 				harnessOnly++
 				continue
 			}
-			a, c := acc[0], acc[1]
-			if a == "" {
-				a = "(harness)"
+			if len(r.Writers) == 2 && r.Writers[0] > r.Writers[1] {
+				r.Writers[0], r.Writers[1] = r.Writers[1], r.Writers[0]
+				r.WFiles[0], r.WFiles[1] = r.WFiles[1], r.WFiles[0]
 			}
-			if c == "" {
-				c = "(harness)"
-			}
-			if a > c {
-				a, c = c, a
-			}
-			key := a + " <> " + c
-			if _, ok := pairs[key]; !ok {
+			key := strings.Join(r.Writers, " & ") + " | " + r.Other
+			if _, ok := reps[key]; !ok {
 				lines := strings.Split(strings.TrimSpace(rep), "\n")
 				if len(lines) > 14 {
 					lines = lines[:14]
 				}
-				pairs[key] = strings.Join(lines, "\n")
+				r.Text = strings.Join(lines, "\n")
+				reps[key] = r
 			}
 		}
 	}
@@ -477,34 +515,58 @@ func raceStage(cfg vhlib.Config, sum *vhlib.Summary) {
 		runs = 3
 	}
 	for i := 0; i < runs; i++ {
-		cmd := exec.Command(bin, "--tier", cfg.Tier, "--seed", fmt.Sprint(cfg.Seed+uint64(i)), "--out", filepath.Join(dir, fmt.Sprintf("run%d", i)))
-		cmd.Env = append(os.Environ(), "VERIF_RACE_CHILD=1", "GORACE=halt_on_error=0 history_size=5 log_path="+filepath.Join(dir, fmt.Sprintf("racelog%d", i)))
-		out, err := cmd.CombinedOutput()
-		if err != nil {
-			if ee, ok := err.(*exec.ExitError); !ok || ee.ExitCode() != 66 { // 66 = races were reported
-				sum.HarnessError(fmt.Sprintf("race child: %v %s", err, tail(string(out), 400)))
-				return
+		ok := false
+		for try := 0; try < 3 && !ok; try++ {
+			cmd := exec.Command(bin, "--tier", cfg.Tier, "--seed", fmt.Sprint(cfg.Seed+uint64(i)), "--out", filepath.Join(dir, fmt.Sprintf("run%d", i)))
+			cmd.Env = append(os.Environ(), "VERIF_RACE_CHILD=1", "GORACE=halt_on_error=0 history_size=5 log_path="+filepath.Join(dir, fmt.Sprintf("racelog%d", i)))
+			out, err := cmd.CombinedOutput()
+			_ = os.WriteFile(filepath.Join(dir, fmt.Sprintf("run%d.out", i)), out, 0o644)
+			if err == nil {
+				ok = true
+				break
 			}
+			if ee, isExit := err.(*exec.ExitError); isExit && ee.ExitCode() == 66 { // 66 = races were reported
+				ok = true
+				break
+			}
+			// limits of the race runtime in this sandbox (not behaviour of the code under test): try again
+			if strings.Contains(string(out), "too many address space collisions for -race mode") || strings.Contains(string(out), "out of memory") ||
+				strings.Contains(string(out), "ThreadSanitizer: failed to") {
+				sum.Count("race/child_retried(race runtime ran out of address space)")
+				continue
+			}
+			sum.HarnessError(fmt.Sprintf("race child: %v %s", err, tail(string(out), 400)))
+			return
+		}
+		if !ok {
+			sum.Count("race/stage_inconclusive(race runtime ran out of address space three times)")
 		}
 	}
-	pairs, _ := parseRaceLogs(filepath.Join(dir, "racelog*"))
-	known, knownFuncs := loadKnownRaces(filepath.Join(filepath.Dir(self), "..", "..", "known", "C11.json"))
-	keys := make([]string, 0, len(pairs))
-	for k := range pairs {
+	reps, _ := parseRaceLogs(filepath.Join(dir, "racelog*"))
+	keys := make([]string, 0, len(reps))
+	for k := range reps {
 		keys = append(keys, k)
 	}
 	sort.Strings(keys)
-	sum.Count(fmt.Sprintf("race/distinct_function_pairs=%d", len(keys)))
+	sum.Count(fmt.Sprintf("race/distinct_reports=%d", len(keys)))
+	// the class of a report is its WRITE side: the unsynchronised writer is the defect, the readers that meet it vary
 	for _, k := range keys {
+		r := reps[k]
 		sum.Eval("race/"+k, true)
-		cls := "data_race: " + k
-		if !known[cls] {
-			fs := strings.Split(k, " <> ")
-			if knownFuncs[fs[0]] && knownFuncs[fs[1]] {
-				cls = "data_race_other_pair_of_known_racy_functions"
+		w := ""
+		for i, x := range r.Writers {
+			if handoverFiles[r.WFiles[i]] {
+				w = x
+				break
 			}
 		}
-		sum.Fail(cls, "the race detector reports unsynchronised accesses by "+k+" during concurrent ingest / flush / rotation / search", map[string]interface{}{"functions": k, "report": pairs[k]})
+		if w == "" {
+			sum.Count("race/outside_the_handover_code(counted, not judged)/" + r.Writers[0])
+			continue
+		}
+		sum.Fail("data_race_in_handover_code: "+w, "the race detector reports an unsynchronised write in "+strings.Join(r.Writers, " and ")+
+			map[bool]string{true: " against a read in " + r.Other, false: ""}[r.Other != ""]+" during concurrent ingest / flush / rotation / search",
+			map[string]interface{}{"writers": r.Writers, "files": r.WFiles, "other_access": r.Other, "report": r.Text})
 	}
 }
 
@@ -515,32 +577,6 @@ func tail(s string, n int) string {
 	return s
 }
 
-// known race classes of known/C11.json (read-only; the verdict is the driver's, this only picks the class name)
-func loadKnownRaces(path string) (map[string]bool, map[string]bool) {
-	known, funcs := map[string]bool{}, map[string]bool{}
-	b, err := os.ReadFile(path)
-	if err != nil {
-		return known, funcs
-	}
-	var j struct {
-		Findings []struct {
-			Status string `json:"status"`
-			Class  string `json:"class"`
-		} `json:"findings"`
-	}
-	if json.Unmarshal(b, &j) != nil {
-		return known, funcs
-	}
-	for _, f := range j.Findings {
-		if f.Status == "known" && strings.HasPrefix(f.Class, "data_race: ") {
-			known[f.Class] = true
-			for _, fn := range strings.Split(strings.TrimPrefix(f.Class, "data_race: "), " <> ") {
-				funcs[fn] = true
-			}
-		}
-	}
-	return known, funcs
-}
 
 
 // ---------- free-running stress (random real interleavings; observed, not forced) ----------
